@@ -262,6 +262,10 @@ impl<G: AffineRepr> InnerProductProof<G> {
         if n != (1 << lg_n) {
             return Err(ProofError::VerificationError);
         }
+        if self.R_vec.len() != lg_n {
+            // L_vec and R_vec are decoded independently; every round needs one of each.
+            return Err(ProofError::VerificationError);
+        }
 
         <Transcript as TranscriptProtocol<G>>::innerproduct_domain_sep(transcript, n as u64);
 
